@@ -54,13 +54,13 @@ Mem16(w) == {M(w, 16, b, x, 1, d, hd) : b \in {3, 5}, x \in {6, 7}, d \in Disp16
             \cup {M(w, 16, b, x, 1, 0, 0) : b \in {3, 5}, x \in {6, 7}}
             \cup {M(w, 16, b, -1, 1, d, 1) : b \in {3, 5, 6, 7}, d \in Disp16}
             \cup {M(w, 16, b, -1, 1, 0, 0) : b \in {3, 5, 6, 7}}
-            \cup {M(w, 0, -1, -1, 1, d, 1) : d \in {0, 1, 255, 4660, 32767, 65535}}
+            \cup {M(w, 0, -1, -1, 1, d, 1) : d \in {0, 1, 255, 4660, 32767, 65535, 65536, 305419896}}
 Mem32(w, Bases, Idxs, Scales, Disps) ==
             {M(w, 32, b, x, sc, d, 1) : b \in Bases, x \in Idxs, sc \in Scales, d \in Disps}
             \cup {M(w, 32, b, x, sc, 0, 0) : b \in Bases, x \in Idxs, sc \in Scales}
 Valid32(m) == /\ m.x # 4                                    \* ESP cannot be an index
               /\ (m.x = -1 => m.sc = 1)
-              /\ ~(m.b = -1 /\ m.x = -1 /\ m.hd = 0)
+              /\ ~(m.b = -1 /\ m.x = -1)                  \* absolute addresses imply no address width: part mem16 (aw = 0)
               /\ ~(m.b = -1 /\ m.x # -1 /\ m.sc = 1)     \* textually the same as base-only
 Carriers(m8, m16, m32) ==
      {Ins("MOV", <<Rg(16, 1), m16>>), Ins("MOV", <<Rg(32, 2), m32>>), Ins("MOV", <<Rg(8, 3), m8>>),
